@@ -77,6 +77,11 @@ package apptest
 //@   site fmt.Errorf.4 assert t.OutputPanic && !hp(got, "panic: "+expect)
 //@   site fmt.Errorf.5 assert !t.OutputPanic && t.Output != "" && expect != got && err == nil
 //@   site wazero.BuildModule.2 assert t.OutputPanic && (hp(got, "panic: "+expect) || firstError != nil)
+//   an output test or example reaches the comparison with its expected output (whose success ends the
+//   iteration without a recorded failure) only when its run returned no error: a trap or exit is never
+//   masked by output that happens to match
+//@   site apptest.fmtGotOutput.1 assert err == nil
+//@   site apptest.fmtGotOutput.3 assert err == nil
 //   the package is reported ok only when no failure was recorded
 //@   site fmt.Printf.18 assert firstError == nil && !fail_line
 //   a test or example that fails by an unexpected error ends the run with the FAIL line and a failure status
